@@ -205,7 +205,8 @@ def check_numbering(case, rec):
         except Exception as e:
             rec.fail(core.exc_bucket(e), '%r: %s: %s' % (text, type(e).__name__, core.short(str(e), 150)))
             return
-        same = (WS.sub('', got) == WS.sub('', exp)) if fmt else got == exp
+        # multi-line text is laid out on its own lines even with formatting off: white-space-insensitive there
+        same = (WS.sub('', got) == WS.sub('', exp)) if (fmt or '\n' in text) else got == exp
         if not same:
             gi = [int(x) for x in re.findall(r'⟦(\d+):', got)]
             ei = [int(x) for x in re.findall(r'⟦(\d+):', exp)]
@@ -337,7 +338,12 @@ def script13(draw, depth=0):
             elif r < 0.4:
                 it['x'] = draw(value_with_fields('xyz'))
                 it['_leaf'] = True
-            elif r < 0.5:
+            elif r < 0.47:
+                # one value spanning two or three lines, fields on any of them (relative numbering must hold across the lines)
+                v1, v2 = draw(value_with_fields('xyz')), draw(value_with_fields('uvw'))
+                it['x'] = v1 + ['\n'] + v2 + (['\n', 'last'] if draw(st.booleans()) else [])
+                it['_leaf'] = True
+            elif r < 0.55:
                 it['sc'] = True
             if draw(st.floats(0, 1)) < 0.2:
                 it['r'] = draw(st.integers(1, 3))
